@@ -590,8 +590,12 @@ pub fn run(ctx: &mut Ctx) {
     ctx.plain_pool_threads = 4;
     ctx.set_case_timeout(45.0);
     let t = ctx.tier;
+    // cases cost up to seconds each: small shrink budgets (a failing case is a small struct anyway)
+    ctx.max_shrink_iters = 100;
     ctx.section("user-chains", "run_progress on user chains: draws = counter model (what run returns), exact transition count, RunStats = RunStats::from(draws), returns Ok, terminates", t.pick(260, 8_000), 16, user_strategy, check_user);
     ctx.section("sampler-twins", "run_progress vs run of an identically seeded twin (NUTS: shifted by one draw), RunStats from the returned draws, all precision combinations", t.pick(320, 10_000), 16, twin_strategy, check_twin);
+    ctx.max_shrink_iters = 8;
     ctx.section("nuts-stragglers", "NUTS::run_progress with 6..14 chains whose per-evaluation delays differ by orders of magnitude (groups finishing within one 250 ms refresh, stragglers): returns Ok with the draws of the twin's run", t.pick(32, 800), 16, straggler_strategy, check_straggler);
+    ctx.max_shrink_iters = 3000;
     ctx.section("receiver-dropped", "run_chain_progress with a receiver dropped before / during / never: draws bitwise those of run_chain, Ok, exact transition count", t.pick(4_000, 120_000), 16, drop_strategy, check_drop);
 }
